@@ -516,6 +516,170 @@ def r10(F, R):
 
 
 
+KINDS = ("Euclidean", "ExactNormal", "Microcanonical")
+
+
+def _kind_locals(b):
+    return [i for i, l in enumerate(b.locals) if str(l.get("ty")).endswith("KineticEnergyKind") and (b.local_name(i) or b.is_arg(i))]
+
+
+def _kind_oracle(b, variant):
+    ks = set(_kind_locals(b))
+
+    def oracle(pl):
+        if pl["l"] in ks and not pl["p"]:
+            return ("V", variant, ())
+        if pl["p"] and isinstance(pl["p"][-1], dict) and str(pl["p"][-1].get("ty")).endswith("KineticEnergyKind"):
+            return ("V", variant, ())
+        return None
+    return oracle
+
+
+def _same_name(a, b):
+    """Parameter names agree up to a leading underscore and a typo (`untransofrmed_gradient`)."""
+    import difflib
+    a, b = a.lstrip("_"), b.lstrip("_")
+    return a == b or (min(len(a), len(b)) >= 6 and difflib.SequenceMatcher(None, a, b).ratio() >= 0.92)
+
+
+def swapped_arguments(F, in_scope=lambda b: True):
+    """Calls that hand two of the caller's named values to a workspace function in each other's place: argument i is a local / parameter named
+    like the callee's parameter j and argument j one named like the callee's parameter i (same types, so the compiler is silent)."""
+    out = []
+    names_of = {}
+
+    def pnames(path):
+        if path not in names_of:
+            cb = F.any_body(path)
+            names_of[path] = [cb.local_name(i) for i in range(1, cb.arg_count + 1)] if cb is not None and cb.blocks else None
+        return names_of[path]
+    impls_by_trait_fn = {}
+    for b in F.bodies.values():
+        p_ = b.parent
+        if b.kind == "method" and p_.get("trait") and p_.get("fn_name"):
+            impls_by_trait_fn.setdefault((strip_generics(p_["trait"]), p_["fn_name"]), []).append(b.path)
+    for b in sorted(F.bodies.values(), key=lambda x: x.path):
+        if not in_scope(b) or not b.blocks:
+            continue
+        for bb, t in b.calls():
+            c = t["callee"]
+            tgt = c.get("resolved") or c.get("path")
+            pn = pnames(tgt) if tgt in F.bodies or tgt in F.removed_helpers else None
+            if pn is None and c.get("trait"):
+                cands = impls_by_trait_fn.get((strip_generics(c["trait"]), c.get("name")), [])
+                if cands:
+                    pn = pnames(sorted(cands)[0])
+            if not pn or len(pn) != len(t["args"]):
+                continue
+            an = []
+            for a in t["args"]:
+                nm = None
+                if a["k"] in ("copy", "move"):
+                    v = b.value(a)
+                    while v[0] in ("ref", "deref"):
+                        v = v[1]
+                    if v[0] in ("arg", "local") and len(v) > 2:
+                        nm = v[2]
+                    elif v[0] == "field":
+                        nm = v[2]
+                an.append(nm)
+            for i in range(len(an)):
+                for j in range(i + 1, len(an)):
+                    if an[i] and an[j] and pn[i] and pn[j] and an[i] != an[j] and _same_name(an[i], pn[j]) and _same_name(an[j], pn[i]) and \
+                       not _same_name(an[i], pn[i]) and not _same_name(an[j], pn[j]) and \
+                       str(t["args"][i].get("pl", {}).get("ty")) == str(t["args"][j].get("pl", {}).get("ty")):
+                        out.append((b, bb, t, an[i], an[j], tgt))
+    return out
+
+
+def r12(F, R):
+    R.rule("C02-R12", "no two values swapped on their way down: a call never passes the caller's `x` where the callee expects `y` and its `y` where the callee expects "
+                      "`x` (both of one type, so it compiles): position and gradient, transformed and untransformed coordinates, source and destination are "
+                      "handed through several layers (transformation -> math backend) by name")
+    hits = swapped_arguments(F, lambda b: not K.is_std_derive(b))
+    for (b, bb, t, x, y, tgt) in hits:
+        R.bad("C02-R12", "%s:%s<->%s" % (b.path, x, y), "%s @%s" % (b.path, loc(t["span"])), "`%s` and `%s` are passed to %s in each other's position" % (x, y, strip_generics(tgt).split("::")[-1]))
+    if not hits:
+        n = sum(1 for b in F.bodies.values() for _c in b.calls())
+        R.ok("C02-R12", "scan", "library crates", "%d calls examined, no pair of arguments in each other's named position" % n)
+    P = K.positive_facts()
+    if any(b.path.endswith("c02_swapped_caller") for (b, _bb, _t, _x, _y, _tg) in swapped_arguments(P)):
+        R.ok("C02-R12", "positive-control", "fixtures/positive", "the planted swapped pair is reported")
+    else:
+        R.bad("C02-R12", "positive-control", "fixtures/positive", "matcher failed to report the planted swapped arguments")
+
+
+def r11(F, R):
+    R.rule("C02-R11", "one leapfrog per kinetic-energy kind (path-sensitive: the kind is assumed to be each of its variants in turn): (a) for the Euclidean and the "
+                      "ExactNormal kind every path of leapfrog() to LeapfrogResult::Ok recomputes the kinetic energy of the new point (only the Microcanonical "
+                      "kind carries it along) - a stale kinetic energy makes the energy of the point, hence the tree weights, wrong; (b) for every kind the "
+                      "second velocity half-step reads the same fields of the point as the first one (position and gradient of the whitened space): a half-step "
+                      "that differs from its sibling is not the adjoint, and the step is not reversible")
+    from .c05 import agg_blocks
+    lf = [b for b in F.trait_method_impls("Hamiltonian", "leapfrog") if "TransformedHamiltonian" in (b.parent.get("self_adt") or "")]
+    if not lf:
+        R.missing("C02-R11", "TransformedHamiltonian::leapfrog")
+    for b in lf:
+        site = "%s @%s" % (b.path, b.loc())
+        if not _kind_locals(b):
+            R.missing("C02-R11", "a KineticEnergyKind local in %s" % b.path)
+            continue
+        oks = [x[0] for x in agg_blocks(b, "LeapfrogResult", "Ok")]
+        upd = [bb for bb, t in b.calls() if path_ends(t["callee"].get("path", ""), "update_kinetic_energy")]
+        for kind in ("Euclidean", "ExactNormal"):
+            key = "%s:kinetic-energy:%s" % (b.path, kind)
+            FB = b.reach_feasible(0, oracle=_kind_oracle(b, kind))
+            live_ok = [o for o in oks if o in FB]
+            if not live_ok:
+                R.bad("C02-R11", key, site, "with kind = %s no LeapfrogResult::Ok is reachable" % kind)
+                continue
+            free = b.reach_from(0, avoid=upd, succ_filter=lambda a_, c_: c_ in FB)
+            stale = [o for o in live_ok if o in free]
+            if stale:
+                R.bad("C02-R11", key, site, "with kind = %s a path reaches LeapfrogResult::Ok without update_kinetic_energy: the new point keeps the kinetic "
+                      "energy of whatever state the pool slot held before" % kind)
+            else:
+                R.ok("C02-R11", key, site, "kind = %s: every path to Ok recomputes the kinetic energy (%d feasible blocks)" % (kind, len(FB)))
+    # (b) sibling half-steps per kind
+    first = F.inherent_methods("TransformedPoint", "first_velocity_halfstep")
+    second = F.inherent_methods("TransformedPoint", "second_velocity_halfstep")
+    if len(first) != 1 or len(second) != 1:
+        R.missing("C02-R11", "TransformedPoint::{first,second}_velocity_halfstep")
+    else:
+        def reads(b, kind):
+            FB = b.reach_feasible(0, oracle=_kind_oracle(b, kind))
+            out = set()
+            n = 0
+            for bb, t in b.calls():
+                if bb not in FB or not (t["callee"].get("trait") and path_ends(t["callee"]["trait"], "math::Math")):
+                    continue
+                if t["callee"].get("name") in ("dim", "copy_into"):
+                    continue
+                n += 1
+                for a in t["args"][1:]:
+                    v = b.value(a)
+                    if v[0] == "ref" and v[1][0] == "field":
+                        base = v[1][1]
+                        while base[0] in ("deref", "ref"):
+                            base = base[1]
+                        if base[0] == "arg" and base[1] == 1:
+                            out.add(v[1][2])
+            return out - {"velocity", "kinetic_energy"}, n
+        fb, sb = first[0], second[0]
+        for kind in KINDS:
+            key = "TransformedPoint:half-step-fields:%s" % kind
+            fr, fn_ = reads(fb, kind)
+            sr, sn_ = reads(sb, kind)
+            site = "%s @%s" % (sb.path, sb.loc())
+            if not fn_ or not sn_:
+                R.bad("C02-R11", key, site, "no Math kernel call in a half-step for kind = %s (first %d, second %d)" % (kind, fn_, sn_))
+            elif fr == sr:
+                R.ok("C02-R11", key, site, "kind = %s: both half-steps read %s" % (kind, sorted(fr)))
+            else:
+                R.bad("C02-R11", key, site, "kind = %s: the first half-step reads %s of the point, the second %s" % (kind, sorted(fr), sorted(sr)))
+    R.floor("C02-R11", 5)
+
+
 def run(F, R, config="all"):
     r1_r2(F, R)
     r3_r4(F, R)
@@ -528,4 +692,10 @@ def run(F, R, config="all"):
     from . import c03
     c03.snapshot(F, R, "C02-R9")
     r10(F, R)
+    r11(F, R)
+    r12(F, R)
+    # the ESH half-steps: closed form, renormalised, unclamped (C18-R1 analysis)
+    from . import c18
+    K.borrow_rule(R, lambda sub: c18.r1(F, sub), "C02-R13", "the microcanonical half-steps are the closed-form ESH update: computed from the gradient they are given, "
+                  "renormalised, and without clamps on its scalars - so that a backward step undoes a forward step (C18-R1 analysis)", only_rules={"C18-R1"})
     R.assume("Math trait contract: `&mut Vector` parameters are written, `& Vector` parameters only read")
